@@ -9,7 +9,7 @@
    single-key C-j rows.  Hence, in one activation of the coroutine, a special
    row can only fire on the whole buffer (exact branch) - after which the
    buffer is empty and the activation ends. *)
-From Coq Require Import ZArith List Bool Lia.
+From Coq Require Import ZArith List Bool Lia Permutation.
 From PTK Require Import Lib.Py Gen.C03_AnsiSequences Gen.C17_Bindings Model.C03_Vt100Parser
   Model.C03_Vt100Input Model.C17_Typeahead Model.C17_Emacs Proofs.C17_Core Proofs.C17_Accept Proofs.C17_Script Proofs.C17_Witness.
 Import ListNotations.
@@ -412,4 +412,33 @@ Lemma conservation_real_table ls e r :
 Proof.
   exact (@queue_conservation estate bid result vstate d_lookup d_lookup_scan d_waits e_eff e_is_cprh d_cpr_lookup e_feeds
            e_restart read_keys flush_keys REof d_cpr_silent d_no_pushback ls e vinit r).
+Qed.
+
+(* ---------------------------------------------------------------------- *)
+(* [deep] lifted to whole runs, and handler-level conservation on the real
+   table (the C-j binding feeds ControlM), every label sequence - flush
+   timeouts and close included - over bytes *)
+
+Lemma d_no_deep_all : no_deep d_lookup d_lookup_scan d_waits e_eff e_is_cprh d_cpr_lookup e_feeds.
+Proof. intros c it PH P K. apply d_no_deep; assumption. Qed.
+
+Lemma handler_conservation_real_table ls e r :
+  let s := @run estate bid result vstate d_lookup d_lookup_scan d_waits e_eff e_is_cprh d_cpr_lookup e_feeds
+                e_restart read_keys flush_keys REof ls (@init estate bid result vstate e vinit r) in
+  deep (co s) = false /\
+  exists t, nc (tl_all t) = nc (handled (co s)) ++ nc (kbuf (co s)) /\
+            nc (tl_pop t) = nc (rpops (co s)) /\ Permutation (tl_fed t) (fedl (co s)).
+Proof.
+  exact (@handler_conservation estate bid result vstate d_lookup d_lookup_scan d_waits e_eff e_is_cprh d_cpr_lookup e_feeds
+           e_restart read_keys flush_keys REof d_cpr_silent d_no_pushback d_no_deep_all ls e vinit r).
+Qed.
+
+(* the only key press a handler of the real table ever feeds is ControlM (C-j's _newline2) *)
+Lemma fed_real_table ls e r :
+  let s := @run estate bid result vstate d_lookup d_lookup_scan d_waits e_eff e_is_cprh d_cpr_lookup e_feeds
+                e_restart read_keys flush_keys REof ls (@init estate bid result vstate e vinit r) in
+  Forall (fun k => k = ENT) (fedl (co s)).
+Proof.
+  intros s. unfold s. apply fed_all. intros b ks e0. unfold e_feeds.
+  destruct (snd b =? 20); repeat constructor.
 Qed.
